@@ -213,11 +213,17 @@ def campaign(c):
     templates = [('deferred', 'import ipv4;\nlet t = ipv4::tcp::flow(1.2.3.4:1, 5.6.7.8:2);\nlet NAME = t.client_message("abc");\nt.server_message("x");\nNAME;\nNAME;\n'),
                  ('rebind', 'import eth;\nlet NAME = eth::frame("|000000000001|", "|000000000002|");\nNAME;\nlet NAME = 2;\n'),
                  ('use', 'import eth;\nimport std;\nlet NAME = 7;\neth::frame("|000000000001|", "|000000000002|", std::be64(NAME));\nlet other = NAME;\neth::frame("|000000000001|", "|000000000002|", std::be64(other));\n'),
-                 ('unused', 'import eth;\nlet NAME = eth::frame("|000000000001|", "|000000000002|", "never emitted");\neth::frame("|000000000001|", "|000000000002|");\n')]
+                 ('unused', 'import eth;\nlet NAME = eth::frame("|000000000001|", "|000000000002|", "never emitted");\neth::frame("|000000000001|", "|000000000002|");\n'),
+                 # a plain value passed without a name to functions that collect their tail (and have optional parameters): it is a
+                 # piece of the payload whatever the variable is called
+                 ('tail', 'import ipv4;\nimport eth;\nimport dns;\nlet t = ipv4::tcp::flow(1.2.3.4:1, 5.6.7.8:2);\nlet u = ipv4::udp::flow(1.2.3.4:1, 5.6.7.8:2);\nlet NAME = 300;\n'
+                          't.client_message(NAME);\nt.server_message("x", NAME);\nu.client_dgram(NAME, "y");\nipv4::datagram(1.2.3.4, 5.6.7.8, NAME);\neth::frame("|000000000001|", "|000000000002|", NAME);\n'
+                          'u.server_dgram(dns::answer(dns::name("a"), NAME));\nipv4::udp::unicast(1.2.3.4:1, 5.6.7.8:2, NAME);\n')]
     for tname, tmpl in templates:
         ref = core.run_cli(tmpl.replace('NAME', 'keep').encode())
         ro = core.classify_cli(ref)
-        for ident in ['_', '__', '_a', '_1', 'a_', 'A', 'Z_9', 'lets', 'importer', 'true_', 'falsey', 'x' * 200, 'keep2', 'e', 'l0', 'ipv4x', 'eth_']:
+        pnames = sorted(set(a['name'] for f in lib.funcs for a in f['args']))          # every parameter name of the library is an ordinary identifier
+        for ident in ['_', '__', '_a', '_1', 'a_', 'A', 'Z_9', 'lets', 'importer', 'true_', 'falsey', 'x' * 200, 'keep2', 'e', 'l0', 'ipv4x', 'eth_'] + (pnames if tname in ('tail', 'use') else pnames[::5]):
             src = tmpl.replace('NAME', ident).encode()
             impl, model = progdiff.run_both(c, src)
             progdiff.compare(c, src, impl, model, 'alpha')
